@@ -223,6 +223,10 @@ func runC09(c *Ctx, i int, r *rand.Rand) {
 				// gRPC: handler returning after whole frames without trailers is also a fault (no grpc-status)
 			}
 			add(&c09Fault{kind: "resp-cut", desc: fmt.Sprintf("backend returns after writing %d of %d body bytes", k, len(respBody)), script: func(sc *BackendScript) { sc.CutAt = k }, declLen: -1, inBand: clientInBand})
+			if bo.Proto == "grpc" && insideUnit(respSpans, k) {
+				// the body stops inside a frame, yet the backend's trailers claim success
+				add(&c09Fault{kind: "resp-cut-ok-trailers", desc: fmt.Sprintf("gRPC backend writes %d of %d body bytes and then trailers with grpc-status 0", k, len(respBody)), script: func(sc *BackendScript) { sc.CutAt, sc.EndAfterCut = k, true }, declLen: -1, inBand: clientInBand})
+			}
 		}
 		valid := map[string]func(v int) bool{
 			"grpc":           func(v int) bool { return v == 0 || v == 1 },
@@ -250,7 +254,7 @@ func runC09(c *Ctx, i int, r *rand.Rand) {
 					add(&c09Fault{kind: "bitflip-resp", desc: fmt.Sprintf("bit %d of the gzip payload of response frame %d flipped", bit, fi), script: func(sc *BackendScript) { sc.UseRaw, sc.RawBody, sc.RawComplete = true, mod, true }, declLen: -1, inBand: clientInBand})
 				}
 			}
-			for _, delta := range []int{1, 1000} {
+			for _, delta := range []int{1, 2, 3, 4, 5, 6, 7, 8, 1000} {
 				mod := append([]byte(nil), respBody...)
 				binary.BigEndian.PutUint32(mod[f.start+1:], uint32(f.plen+delta))
 				add(&c09Fault{kind: "resp-length-lie", desc: fmt.Sprintf("response frame %d declares %d payload bytes instead of %d", fi, f.plen+delta, f.plen), script: func(sc *BackendScript) { sc.UseRaw, sc.RawBody, sc.RawComplete = true, mod, true }, declLen: -1, inBand: clientInBand})
